@@ -113,6 +113,14 @@ def run(ctx: core.Ctx):
         stored = data[:, list(perm)].T.reshape(n, len(blist), 1)
         da = xr.DataArray(stored, dims=("time", "y", "x"), coords={"time": times})
         got = np.asarray(da.hdc.algo.croo()).reshape(-1)
+        # the run is counted along `time` wherever that dimension sits in the array
+        for order in (("y", "x", "time"), ("y", "time", "x")):
+            alt = np.asarray(da.transpose(*order).hdc.algo.croo().transpose("y", "x")).reshape(-1)
+            if not np.array_equal(alt, got):
+                i = int(np.argmax(alt != got))
+                ctx.fail("croo", dict(chrono=blist[i], stored_order=list(perm), dims=order), int(alt[i]), int(got[i]),
+                         note="croo does not depend on the order of the dimensions")
+                break
         for bits, g in zip(blist, got):
             stored_vals = [bits[p] for p in perm]
             ctx.case(("croo", tuple(bits), perm), nontrivial=any(bits) and n > 1,
